@@ -8,6 +8,7 @@ when a suspended send() is acknowledged.  Monitors are independent protocol
 state machines that only *record* (rule R7: never raise into the application).
 """
 import collections
+import copy
 
 
 class LostConnection(OSError):
@@ -27,12 +28,39 @@ def _ver_tuple(v):
 class Monitor(object):
     def __init__(self, prefix):
         self.prefix = prefix
-        self.violations = []     # (oracle_id, message)
+        self._violations = []    # (oracle_id, message)
         self.events = []         # accepted (connection still up) events
         self.attempted_after_lost = 0
+        self._snapshots = []     # deep copies taken when the event was sent
+        self._finalized = False
+
+    def remember(self, ev):
+        """A server may keep the event object after send() returns (buffering
+        middleware does); the application must not change it afterwards."""
+        self.events.append(ev)
+        try:
+            self._snapshots.append(copy.deepcopy(ev))
+        except Exception:
+            self._snapshots.append(None)
+
+    def finalize(self):
+        if self._finalized:
+            return
+        self._finalized = True
+        for ev, snap in zip(self.events, self._snapshots):
+            if snap is not None and ev != snap:
+                self.flag('event_mutated', 'event object changed after it was sent: sent %r, now %r' % (
+                    snap, ev))
+                break
 
     def flag(self, what, msg):
-        self.violations.append((self.prefix + '.' + what, msg))
+        self._violations.append((self.prefix + '.' + what, msg))
+
+    @property
+    def violations(self):
+        """Read after the run: also checks that no sent event was mutated."""
+        self.finalize()
+        return self._violations
 
 
 class HttpMonitor(Monitor):
@@ -48,7 +76,7 @@ class HttpMonitor(Monitor):
         self.starts = 0
 
     def on_send(self, ev):
-        self.events.append(ev)
+        self.remember(ev)
         if not isinstance(ev, dict) or not isinstance(ev.get('type'), str):
             self.flag('event_shape', 'not an event dict: %r' % (ev,))
             return
@@ -124,7 +152,7 @@ class WsMonitor(Monitor):
         self.accept_event = None
 
     def on_send(self, ev):
-        self.events.append(ev)
+        self.remember(ev)
         if not isinstance(ev, dict) or not isinstance(ev.get('type'), str):
             self.flag('event_shape', 'not an event dict: %r' % (ev,))
             return
@@ -195,7 +223,7 @@ class LifespanMonitor(Monitor):
         Monitor.__init__(self, 'lifespan.monitor')
 
     def on_send(self, ev):
-        self.events.append(ev)
+        self.remember(ev)
         t = ev.get('type') if isinstance(ev, dict) else None
         if t not in ('lifespan.startup.complete', 'lifespan.startup.failed',
                      'lifespan.shutdown.complete', 'lifespan.shutdown.failed'):
